@@ -112,6 +112,103 @@ def oracle(chk, scn, obs, stats):
                 return
 
 
+def real_stream(chk, rng, n, stats):
+    """Real gatherers and real templates (no plan injection): directories and plain files mixed on the command
+    line, every mode; the mode clause is judged on what the run did: directory mode renames directories only,
+    name mode keeps every parent, nothing outside the input directories changes."""
+    from cli_driver import run_cli, snapshot, build_tree
+    from sandbox import Sandbox
+    for _ in range(n):
+        spec, inputs = pipe.gen_tree(rng)
+        mode = rng.choice(["directory", "directory", "name", "path"])
+        tpl = {"directory": rng.choice(["%Upper{%Name()}", "x%Name()", "%Name()_d"]),
+               "name": rng.choice(["%Upper{%Name()}", "x%Name()", "%Base()_n%Ext()"]),
+               "path": rng.choice(["%Dir()/x%Name()", "moved/%Name()", "%Dir()/s/%Name()"])}[mode]
+        def leads_up(p, k, pl):
+            if k != "l":
+                return False
+            tgt = pl.replace("ROOT/", "").replace("ROOT", "") if pl.startswith("ROOT") else os.path.normpath(os.path.join(os.path.dirname(p), pl))
+            return tgt in ("", ".") or inside(os.path.dirname(p), tgt) or tgt.startswith("..")
+        spec = [t for t in spec if not leads_up(*t)]       # a link to an ancestor makes --recursive gathering run away (not this property)
+        with Sandbox() as root:
+            pipe.materialise(root, spec)
+            snap0, ids = pipe.id_map(root)
+            init = pipe.canon(snap0, ids, root)
+            args = []
+            for d in inputs:
+                args.append(d)
+                ents = [p for p, v in init.items() if p.startswith(d + "/") and p.count("/") == d.count("/") + 1]
+                rng.shuffle(ents)
+                args += ents[: rng.randrange(0, 3)]          # plain files / links / sub-directories named explicitly too
+            rng.shuffle(args)
+            argv = [{"name": "-n", "path": "-p", "directory": "-d"}[mode]]
+            if rng.random() < 0.6:
+                argv.append("-r")
+            if rng.random() < 0.5:
+                argv.append("-ih")
+            argv.append(rng.choice(["-cs", "-ci"]))
+            argv += ["--", tpl] + args
+            # symlinks among the arguments that lead to a directory, with their resolved path (relative to the sandbox root)
+            link_dirs = {}
+            for a in args:
+                full = os.path.join(root, a)
+                if os.path.islink(full) and os.path.isdir(full):
+                    link_dirs[a] = os.path.relpath(os.path.realpath(full), root)
+            # symbolic links that lead to a directory count as directories (the gatherers follow links)
+            dirlinks = {rel: os.path.relpath(os.path.realpath(os.path.join(root, rel)), root)
+                        for rel, v in init.items() if v[0] == "l" and os.path.isdir(os.path.join(root, rel))}
+            root0 = root
+            res = run_cli(argv, root, root=root, snapshots=False)
+            fin = pipe.canon(snapshot(root, with_times=False), ids, root)
+            dirs0 = {rel: v[1] for rel, v in snap0.items() if v[0] == "dir"}
+            dirs1 = {rel: v[1] for rel, v in snapshot(root, with_times=False).items() if v[0] == "dir"}
+            root_ino = os.lstat(root).st_ino
+        stats["real_stream_runs"] = stats.get("real_stream_runs", 0) + 1
+        chk.count(("real", mode, tuple(argv[:-len(args)]), tuple(args), json.dumps(spec, default=str)), nontrivial=bool(res.tracer.calls))
+        case = {"scenario": {"mode": mode, "strategy": "real gatherers", "answers": [], "plan": [], "tree": spec, "argv": argv}, "status": res.status,
+                "calls": [(c["name"], c["args"]) for c in res.tracer.calls][:6]}
+        ids_i = {v[1]: p for p, v in init.items() if v[0] != "d"}
+        ids_f = {v[1]: p for p, v in fin.items() if v[0] != "d"}
+        # the input directory of every designated entry, as the property reads the command line: a directory argument is
+        # an input directory (resolved: it may be a symlink), except in directory mode without --recursive where the
+        # directory itself is the entry and its PARENT the input directory; a non-directory argument has its parent
+        ins = []
+        for a in args:
+            full = os.path.join(root, a)
+            kind = init.get(a, ("?",))[0]
+            target_is_dir = kind == "d" or (kind == "l" and a in link_dirs)
+            if target_is_dir and not (mode == "directory" and "-r" not in argv):
+                ins.append(link_dirs.get(a, a))
+            else:
+                ins.append(os.path.dirname(a))
+        # F32 (recorded): path mode + --recursive + a symbolic link below an input directory that leads to a directory outside it
+        f32 = None
+        if mode == "path" and "-r" in argv and any(
+                not any(dd in ("", ".") or inside(tgt, dd) for dd in ins)
+                for l, tgt in dirlinks.items() if any(inside(l, dd) for dd in ins)):
+            f32 = "F32"
+        for p in set(init) | set(fin):
+            if init.get(p) != fin.get(p) and not any(d in ("", ".") or inside(p, d) for d in ins):
+                chk.oracle_fail("the run changed %r, which is outside every input directory" % p, case, finding=f32)
+                break
+        else:
+            if mode == "directory":
+                dirs0[""] = dirs1[""] = root_ino
+                for i, p in ids_i.items():
+                    if p in dirlinks:
+                        continue
+                    q = ids_f.get(i)
+                    if q is None or os.path.basename(p) != os.path.basename(q) or dirs0.get(os.path.dirname(p)) != dirs1.get(os.path.dirname(q)):
+                        chk.oracle_fail("directory mode changed the name or parent of the non-directory %r (now %r)" % (p, q), case)
+                        break
+            elif mode == "name":
+                for i, p in ids_i.items():
+                    q = ids_f.get(i)
+                    if q is not None and os.path.dirname(q) != os.path.dirname(p):
+                        chk.oracle_fail("name mode moved %r to another directory: %r" % (p, q), case)
+                        break
+
+
 def run(chk):
     rng = chk.rng
     quick = chk.tier == "quick"
@@ -136,6 +233,7 @@ def run(chk):
         chk.count((json.dumps(pipe.slim(s), sort_keys=True, default=str),), nontrivial=len(o["calls"]) > 0 or o["status"] == 1)
         obss.append(o)
     excluded = pipe.check_cases(chk, scns, obss)
+    real_stream(chk, rng, 150 if quick else 5000, stats)
     nprim = pipe.check_fs_primitives(chk, 300 if quick else 4000)
     chk.coverage["evaluations"] += nprim
     for s, o in list(zip(scns, obss))[:3]:
